@@ -82,6 +82,15 @@ def run(cmd, cwd=None, env=None, timeout=1800, stdin=None):
 # ------------------------------------------------------------------ build steps
 
 def build_go(plugin):
+    """Build with one retry: a concurrently trimmed Go build cache or a busy machine can fail a build transiently."""
+    ok, msg = _build_go(plugin)
+    if not ok:
+        time.sleep(5)
+        ok, msg = _build_go(plugin)
+    return ok, msg
+
+
+def _build_go(plugin):
     """(Re)build this property's harness test binary and fact generator against the repo working tree."""
     pk = plugin.ID.lower()
     with Lock("go"):
@@ -252,7 +261,12 @@ def evaluate(plugin, recs, tag="gen", shard=300):
             p.kill()
             return None, None, "coqc timeout on " + path
         if p.returncode != 0:
-            return None, None, "coqc failed on %s:\n%s" % (path, out[-3000:])
+            # transient failures under load (e.g. a .vo being rewritten by a concurrent run): retry once
+            time.sleep(3)
+            rc2, out2, _ = run(["coqc", "-Q", COQ, "Nib", path], cwd=wd, timeout=1800)
+            if rc2 != 0:
+                return None, None, "coqc failed on %s:\n%s" % (path, out2[-3000:])
+            out = out2
         m, v = parse_list(out, "M"), parse_list(out, "V")
         if m is None or v is None:
             return None, None, "cannot parse coqc output of %s:\n%s" % (path, out[-2000:])
